@@ -31,7 +31,7 @@ func flushFailScenario(r *vkit.R, g *vkit.Rand, viaLeaderCheck bool) {
 	if viaLeaderCheck {
 		how = "leaderCheck"
 	}
-	var down int32
+	var down, readsDown int32
 	cs := gatewayfake.NewSimpleClientset()
 	cs.PrependReactor("*", "ratelimitconditions", func(a clienttesting.Action) (bool, runtime.Object, error) {
 		if atomic.LoadInt32(&down) == 1 {
@@ -39,6 +39,9 @@ func flushFailScenario(r *vkit.R, g *vkit.Rand, viaLeaderCheck bool) {
 			case "create", "update", "patch", "delete":
 				return true, nil, errors.New("injected fault: control plane unreachable for writes")
 			}
+		}
+		if atomic.LoadInt32(&readsDown) == 1 && a.GetVerb() == "list" {
+			return true, nil, errors.New("injected fault: control plane unreachable for reads")
 		}
 		return false, nil, nil
 	})
@@ -151,38 +154,68 @@ func flushFailScenario(r *vkit.R, g *vkit.Rand, viaLeaderCheck bool) {
 	})
 	logf("shard %d regained (%s) panic=%v", shard, how, p)
 	r.Count("srv_flushfail_regains", 1)
-	after, ok := h.view(shard)
-	if !ok {
-		r.Count("srv_gain_without_store", 1)
-	}
-	specOf := func(c *proxyv1alpha1.RateLimitCondition) string {
-		b, _ := json.Marshal(map[string]interface{}{"spec": c.Spec, "status": c.Status})
-		return string(b)
-	}
-	st := srv.Handle.Store(shard)
-	for _, c := range after.Conditions {
-		if c.Instance == "" {
-			continue
+	judgeRegain := func(how string) {
+		after, ok := h.view(shard)
+		if !ok {
+			r.Count("srv_gain_without_store", 1)
 		}
-		r.Count("srv_flushfail_conditions_compared_with_api", 1)
-		inAPI, err := api.Get(ctx, c.Name, metav1.GetOptions{})
-		switch {
-		case apierrors.IsNotFound(err):
-			r.Violation("C13/server/regain/earlier-conditions-visible/k8s-store-absent-from-api", fmt.Sprintf("after regaining shard %d (%s; the flush at the loss had failed) the store serves condition %q of instance %q, which is not in the API: it can only come from the previous leadership term's memory", shard, how, c.Name, c.Instance),
-				wit(map[string]interface{}{"store": after.String()}))
-		case err == nil && st != nil:
-			if mem, gerr := st.Get(inAPI.Spec.UpstreamCluster, c.Name); gerr == nil && specOf(mem) != specOf(inAPI) {
-				r.Violation("C13/server/regain/earlier-conditions-visible/k8s-store-differs-from-api", fmt.Sprintf("after regaining shard %d (%s; the flush at the loss had failed) condition %q is served as %s while the API (what a new term loads) holds %s", shard, how, c.Name, specOf(mem), specOf(inAPI)),
+		specOf := func(c *proxyv1alpha1.RateLimitCondition) string {
+			b, _ := json.Marshal(map[string]interface{}{"spec": c.Spec, "status": c.Status})
+			return string(b)
+		}
+		st := srv.Handle.Store(shard)
+		for _, c := range after.Conditions {
+			if c.Instance == "" {
+				continue
+			}
+			r.Count("srv_flushfail_conditions_compared_with_api", 1)
+			inAPI, err := api.Get(ctx, c.Name, metav1.GetOptions{})
+			switch {
+			case apierrors.IsNotFound(err):
+				r.Violation("C13/server/regain/earlier-conditions-visible/k8s-store-absent-from-api", fmt.Sprintf("after regaining shard %d (%s; the flush at the loss had failed) the store serves condition %q of instance %q, which is not in the API: it can only come from the previous leadership term's memory", shard, how, c.Name, c.Instance),
 					wit(map[string]interface{}{"store": after.String()}))
+			case err == nil && st != nil:
+				if mem, gerr := st.Get(inAPI.Spec.UpstreamCluster, c.Name); gerr == nil && specOf(mem) != specOf(inAPI) {
+					r.Violation("C13/server/regain/earlier-conditions-visible/k8s-store-differs-from-api", fmt.Sprintf("after regaining shard %d (%s; the flush at the loss had failed) condition %q is served as %s while the API (what a new term loads) holds %s", shard, how, c.Name, specOf(mem), specOf(inAPI)),
+						wit(map[string]interface{}{"store": after.String()}))
+				}
+			}
+		}
+		for _, c := range after.Counts {
+			if !strings.Contains(c, " count=0 ") || !strings.HasSuffix(c, " details=") {
+				r.Violation("C13/server/regain/earlier-counts-visible/k8s-store", fmt.Sprintf("after regaining shard %d (%s; the flush at the loss had failed) in-flight counts of the previous leadership term are still there: %s", shard, how, c), wit(map[string]interface{}{"store": after.String()}))
+				break
 			}
 		}
 	}
-	for _, c := range after.Counts {
-		if !strings.Contains(c, " count=0 ") || !strings.HasSuffix(c, " details=") {
-			r.Violation("C13/server/regain/earlier-counts-visible/k8s-store", fmt.Sprintf("after regaining shard %d (%s; the flush at the loss had failed) in-flight counts of the previous leadership term are still there: %s", shard, how, c), wit(map[string]interface{}{"store": after.String()}))
-			break
-		}
+	judgeRegain(how)
+
+	// second cycle - the regain itself hits an error path: an ordinary loss (the flush succeeds), then the shard comes back
+	// while the API cannot be READ: startLeading's Load fails and the half-built store is dropped; once the API is readable
+	// the periodic leaderCheck builds the store. Whatever is visible then must again be what the API holds, and no count of
+	// the second term may be left.
+	for _, u := range ups {
+		reqID++
+		_, _ = srv.Limiter.DoAcquire(u, newAcquire(u, "gw-1", reqID, 3))
+		_, _ = srv.Limiter.UpdateRateLimitConditionStatus(u, newCondition(u, "gw-1", 6))
 	}
+	srv.Elector.Lose(shard, "limiter-B")
+	if srv.Handle.Store(shard) != nil {
+		r.Violation("C13/server/loss/store-kept/callback", fmt.Sprintf("after losing leadership of shard %d (second term, flush succeeded) the server still holds the shard's store", shard), wit(nil))
+	}
+	atomic.StoreInt32(&readsDown, 1)
+	p = vkit.Safely(func() { srv.Elector.Gain(shard) })
+	logf("shard %d regained while the API cannot be read panic=%v store present=%v", shard, p, srv.Handle.Store(shard) != nil)
+	if srv.Handle.Store(shard) == nil {
+		r.Count("srv_regain_load_failed_store_dropped", 1)
+	}
+	atomic.StoreInt32(&readsDown, 0)
+	p = vkit.Safely(func() { srv.Handle.LeaderCheck() })
+	logf("API readable again, leaderCheck panic=%v store present=%v", p, srv.Handle.Store(shard) != nil)
+	if srv.Handle.Store(shard) != nil {
+		r.Count("srv_regain_after_load_failure", 1)
+	}
+	judgeRegain("after a failed Load, by leaderCheck")
 	r.Eval(1)
 	r.Count("srv_flushfail_scenarios", 1)
 	r.Distinct(vkit.Hash64("flushfail", how, fmt.Sprint(N), strings.Join(ups, ",")))
